@@ -48,8 +48,12 @@ def rule_entry(prog, rep):
         body = lam[2]
         lvl = min(s[1] for s in walk(lam) if s[0] == "bv")
         b0 = ("bv", lvl, 0)
-        ok = body[0] == "call" and body[1] == M and len(body[2]) == 3 and \
-            body[2][0] == ("call", UNWRAP, (), (("tree", b0),))
+
+        def leaves(t):
+            return leaves(t[2]) + leaves(t[3]) if t[0] == "ite" else [t]
+        # every way out of the wrapper (whatever it branches on) calls the method on unwrap(bijection)
+        ok = all(b[0] == "call" and b[1] == M and len(b[2]) == 3 and b[2][0] == ("call", UNWRAP, (), (("tree", b0),))
+                 for b in leaves(body))
     rep.check(ok, "C12.entry", site, "_unwrap_check_and_cast:method(unwrap(bijection),...)",
               "the wrapped method receives unwrap(bijection)",
               f"wrapper body is {show(lam, 240)}; the method must be called on unwrap(bijection)")
@@ -208,6 +212,14 @@ def rule_recursive(prog, rep):
     want = eval_ref_method(prog, c, RECURSIVE_REF, [])
     compare(rep, "C12.recursive", method_site(prog, c, "recursive_unwrap"), "AbstractUnwrappable.recursive_unwrap",
             got, want, "recursive_unwrap")
+    # the recursion is the base class's: a wrapper (or a mixin in its MRO) that re-defines it must do the same
+    for k in prog.subclasses(UNWRAPPABLE):
+        r = prog.find_method(k, "recursive_unwrap")
+        if r is not None and r[0].qualname != UNWRAPPABLE:
+            got = Interp(prog).eval_method(k, "recursive_unwrap", [])
+            want = eval_ref_method(prog, k, RECURSIVE_REF, [])
+            compare(rep, "C12.recursive", f"{r[0].module.relpath}:{r[1].lineno}",
+                    f"{k.qualname}.recursive_unwrap (resolved to {r[0].name})", got, want, "overriding recursive_unwrap")
     wrappers = {k.qualname for k in prog.subclasses(UNWRAPPABLE)}
     for k in prog.subclasses(UNWRAPPABLE):
         if prog.is_abstract(k):
@@ -225,6 +237,34 @@ PARTITION_SITES = [
     ("flowjax.utils", "get_ravelled_pytree_constructor"),
     ("flowjax.experimental.numpyro", "register_params"),
 ]
+
+
+def partition_calls(prog, m, fn):
+    """Evaluate the loop-free prefix of the function (helpers inlined); returns (name -> term, the eqx.partition
+    call terms found, keyed by digest)."""
+    from .loops import summarise
+    from ..terms import assigned_names
+    body = [st for st in fn.body if not (isinstance(st, ast.Expr) and isinstance(st.value, ast.Constant))]
+    prefix = []
+    for st in body:
+        if isinstance(st, (ast.For, ast.While, ast.Return)):
+            break
+        prefix.append(st)
+    ins = [a.arg for a in fn.args.args + fn.args.kwonlyargs]
+    outs = assigned_names(prefix)
+    extra = {}
+    pos = fn.args.args
+    it0 = Interp(prog)
+    for a, d in zip(pos[len(pos) - len(fn.args.defaults):], fn.args.defaults):
+        if isinstance(d, (ast.Attribute, ast.Name)):
+            extra[a.arg] = it0.ev(d, Env(), (m, None, None))
+    res, _ = summarise(prog, m, prefix, [i for i in ins if i not in extra], outs, None, extra_env=extra)
+    pcalls = {}
+    for nm, tt in res.items():
+        for s2 in walk(tt):
+            if s2[0] == "call" and s2[1] == ("ext", "equinox.partition"):
+                pcalls[key(s2)] = s2
+    return res, pcalls
 
 
 def rule_freeze(prog, rep):
@@ -250,29 +290,7 @@ def rule_freeze(prog, rep):
             continue
         fn = m.functions[fname]
         site = f"{m.relpath}:{fn.lineno}"
-        # evaluate the loop-free prefix of the function (helpers inlined) and locate the partition call
-        from .loops import summarise
-        from ..terms import assigned_names
-        body = [st for st in fn.body if not (isinstance(st, ast.Expr) and isinstance(st.value, ast.Constant))]
-        prefix = []
-        for st in body:
-            if isinstance(st, (ast.For, ast.While, ast.Return)):
-                break
-            prefix.append(st)
-        ins = [a.arg for a in fn.args.args + fn.args.kwonlyargs]
-        outs = assigned_names(prefix)
-        extra = {}
-        pos = fn.args.args
-        it0 = Interp(prog)
-        for a, d in zip(pos[len(pos) - len(fn.args.defaults):], fn.args.defaults):
-            if isinstance(d, (ast.Attribute, ast.Name)):
-                extra[a.arg] = it0.ev(d, Env(), (m, None, None))
-        res, _ = summarise(prog, m, prefix, [i for i in ins if i not in extra], outs, None, extra_env=extra)
-        pcalls = {}
-        for nm, tt in res.items():
-            for s2 in walk(tt):
-                if s2[0] == "call" and s2[1] == ("ext", "equinox.partition"):
-                    pcalls[key(s2)] = s2
+        res, pcalls = partition_calls(prog, m, fn)
         if len(pcalls) != 1:
             rep.undecided("C12.freeze", site, f"{fname}:partition", f"expected one eqx.partition of the model, found {len(pcalls)}")
             continue
